@@ -2,6 +2,7 @@ package rules
 
 import (
 	"fmt"
+	"go/constant"
 	"go/token"
 	"go/types"
 	"sort"
@@ -24,6 +25,7 @@ type guardSite struct {
 // branch ("result unchecked").
 type guard struct {
 	name      string
+	weak      []guardSite // or-like merges: usable as failure edges, and as success edges only inside a union (see unionGuard)
 	sites     []guardSite
 	unchecked []ssa.Instruction
 	found     int // number of producing instructions found
@@ -42,6 +44,9 @@ func errNil(name string, calls []ssa.Instruction, idx int) guard {
 		for _, r := range ir.Result(v, idx) {
 			for _, b := range ir.NilBranches(r) {
 				if b.Pol < 0 {
+					if b.Via != nil {
+						g.weak = append(g.weak, guardSite{b, in})
+					}
 					continue
 				}
 				g.sites = append(g.sites, guardSite{b, in})
@@ -71,6 +76,9 @@ func boolIs(name string, calls []ssa.Instruction, idx int, want bool) guard {
 					b = b.Flip()
 				}
 				if b.Pol < 0 {
+					if b.Via != nil {
+						g.weak = append(g.weak, guardSite{b, in})
+					}
 					continue
 				}
 				g.sites = append(g.sites, guardSite{b, in})
@@ -100,6 +108,9 @@ func cmpIs(name string, cmps []ssa.Instruction, want bool) guard {
 				b = b.Flip()
 			}
 			if b.Pol < 0 {
+				if b.Via != nil {
+					g.weak = append(g.weak, guardSite{b, in})
+				}
 				continue
 			}
 			g.sites = append(g.sites, guardSite{b, in})
@@ -126,6 +137,9 @@ func equalIs(name string, cmps []ssa.Instruction, wantEqual bool) guard {
 				b = b.Flip()
 			}
 			if b.Pol < 0 {
+				if b.Via != nil {
+					g.weak = append(g.weak, guardSite{b, in})
+				}
 				continue
 			}
 			g.sites = append(g.sites, guardSite{b, in})
@@ -150,6 +164,9 @@ func okIs(name string, ins []ssa.Instruction) guard {
 		for _, r := range ir.Result(v, 1) {
 			for _, b := range ir.TrueBranches(r) {
 				if b.Pol < 0 {
+					if b.Via != nil {
+						g.weak = append(g.weak, guardSite{b, in})
+					}
 					continue
 				}
 				g.sites = append(g.sites, guardSite{b, in})
@@ -272,11 +289,29 @@ func (c *Ctx) nilReturnsGuarded(fn *ssa.Function, g guard, minSites int) bool {
 		v, ok := u.(ssa.Value)
 		returned := false
 		if ok {
-			for _, r := range ir.Refs(v) {
-				if _, isRet := r.(*ssa.Return); isRet {
-					returned = true
+			// the call's (error) result is returned as it is, possibly through
+			// a result variable merged at the return
+			var flows func(x ssa.Value, depth int) bool
+			flows = func(x ssa.Value, depth int) bool {
+				for _, r := range ir.Refs(x) {
+					switch y := r.(type) {
+					case *ssa.Return:
+						isGuardVal[x] = true
+						return true
+					case *ssa.Extract:
+						if depth < 2 && flows(y, depth+1) {
+							return true
+						}
+					case *ssa.Phi:
+						if depth < 2 && flows(y, depth+1) {
+							isGuardVal[x] = true
+							return true
+						}
+					}
 				}
+				return false
 			}
+			returned = flows(v, 0)
 		}
 		if returned {
 			isGuardVal[v] = true
@@ -299,6 +334,30 @@ func (c *Ctx) nilReturnsGuarded(fn *ssa.Function, g guard, minSites int) bool {
 		if !ir.IsNil(rv) && (nonNilAt(rv, b) || knownNonNilError(rv)) {
 			continue
 		}
+		// the result travels through a variable (`if err == nil { err = g() };
+		// return err`): judge each incoming edge of the merged value on its own
+		if ph, ok := rv.(*ssa.Phi); ok && ph.Block() == b {
+			split := true
+			var edgeEffects []ssa.Instruction
+			for i, e := range ph.Edges {
+				pred := b.Preds[i]
+				if isGuardVal[e] {
+					continue
+				}
+				if !ir.IsNil(e) && (knownNonNilError(e) || nonNilAt(e, pred) || nonNilEdge(e, pred, b)) {
+					continue
+				}
+				if len(pred.Succs) != 1 {
+					split = false
+					break
+				}
+				edgeEffects = append(edgeEffects, pred.Instrs[len(pred.Instrs)-1])
+			}
+			if split {
+				effects = append(effects, edgeEffects...)
+				continue
+			}
+		}
 		effects = append(effects, ret)
 	}
 	// sites without an If (directly returned) must not enter the cut.
@@ -320,6 +379,17 @@ func (c *Ctx) nilReturnsGuarded(fn *ssa.Function, g guard, minSites int) bool {
 		return false
 	}
 	return c.guarded(fn, g2, 0, "return nil", effects, 0, gDominate)
+}
+
+// nonNilEdge: the edge pred -> b is itself the non-nil edge of a test of v.
+func nonNilEdge(v ssa.Value, pred, b *ssa.BasicBlock) bool {
+	for _, br := range ir.NilBranches(v) {
+		o := br.Other()
+		if o.From == pred && pred.Succs[o.Succ] == b {
+			return true
+		}
+	}
+	return false
 }
 
 // nonNilAt: block b is only reachable through the non-nil edge of a test of v.
@@ -852,13 +922,79 @@ func relGuard(name string, fn *ssa.Function, left, right func(ssa.Value) bool, r
 		if _, isCmp := neg[bop]; !isCmp {
 			return
 		}
+		// integer comparisons with a constant: x < k+1 is x <= k, x >= k+1 is
+		// x > k; the constant side is matched against the rule's operand
+		// predicate after shifting it by one where that helps
+		shift := func(v ssa.Value, d int64) (ssa.Value, bool) {
+			k, ok := v.(*ssa.Const)
+			if !ok || k.Value == nil || k.Value.Kind() != constant.Int {
+				return nil, false
+			}
+			bt, ok := k.Type().Underlying().(*types.Basic)
+			if !ok || bt.Info()&types.IsInteger == 0 {
+				return nil, false
+			}
+			n, exact := constant.Int64Val(k.Value)
+			if !exact {
+				return nil, false
+			}
+			return ssa.NewConst(constant.MakeInt64(n+d), k.Type()), true
+		}
+		// candidate rewritings of (X op Y): the original plus the shifted ones
+		type cand struct {
+			x, y ssa.Value
+			op   token.Token
+		}
+		cands := []cand{{b.X, b.Y, bop}}
+		adj := func(x, y ssa.Value, op token.Token, constIsY bool) {
+			// with the constant on the right: x < k => x <= k-1 ; x >= k => x > k-1 ;
+			// x <= k => x < k+1 ; x > k => x >= k+1
+			kv := y
+			if !constIsY {
+				kv = x
+				op = mirror[op]
+			}
+			var d int64
+			var nop token.Token
+			switch op {
+			case token.LSS:
+				d, nop = -1, token.LEQ
+			case token.GEQ:
+				d, nop = -1, token.GTR
+			case token.LEQ:
+				d, nop = 1, token.LSS
+			case token.GTR:
+				d, nop = 1, token.GEQ
+			}
+			nk, ok := shift(kv, d)
+			if !ok {
+				return
+			}
+			if constIsY {
+				cands = append(cands, cand{x, nk, nop})
+			} else {
+				cands = append(cands, cand{nk, y, mirror[nop]})
+			}
+		}
+		if _, isC := b.Y.(*ssa.Const); isC {
+			adj(b.X, b.Y, bop, true)
+		} else if _, isC := b.X.(*ssa.Const); isC {
+			adj(b.X, b.Y, bop, false)
+		}
 		var op token.Token
-		switch {
-		case left(b.X) && right(b.Y):
-			op = bop
-		case left(b.Y) && right(b.X):
-			op = mirror[bop]
-		default:
+		matched := false
+		for _, cd := range cands {
+			switch {
+			case left(cd.x) && right(cd.y):
+				op, matched = cd.op, true
+			case left(cd.y) && right(cd.x):
+				op, matched = mirror[cd.op], true
+			}
+			if matched {
+				break
+			}
+		}
+		if !matched {
 			return
 		}
 		var wantTrue bool
@@ -888,4 +1024,75 @@ func relGuard(name string, fn *ssa.Function, left, right func(ssa.Value) bool, r
 		}
 	})
 	return g, odd
+}
+
+// unionGuard builds the guard "g1 || g2 || ...": an effect is protected when
+// it is reachable only through a success edge of one of them. A disjunct whose
+// value is merged with the others before it is tested (`ok := a; if !ok { ok =
+// b }; if ok {..}` or `a || b` held in a variable) has no test of its own: the
+// test of the merged value is its success edge provided every other way the
+// merged value becomes true is a success edge of another disjunct.
+func unionGuard(name string, gs ...guard) guard {
+	u := guard{name: name}
+	for _, g := range gs {
+		u.sites = append(u.sites, g.sites...)
+		u.weak = append(u.weak, g.weak...)
+		u.unchecked = append(u.unchecked, g.unchecked...)
+		u.found += g.found
+	}
+	strong := map[ir.Edge]bool{}
+	for _, s := range u.sites {
+		strong[s.br.Edge()] = true
+	}
+	promoted := map[ssa.Instruction]bool{}
+	for _, w := range u.weak {
+		p := w.br.Via
+		if p == nil {
+			continue
+		}
+		ok := true
+		for i, e := range p.Edges {
+			pred := p.Block().Preds[i]
+			if k, isC := ir.ConstBool(e); isC && !k {
+				continue // false on that edge: contributes nothing
+			}
+			// the disjunct's own value
+			own := false
+			if v, isV := w.site.(ssa.Value); isV {
+				for _, r := range append(ir.Result(v, 0), v) {
+					if r == e {
+						own = true
+					}
+				}
+				if ir.DerivesFrom(e, func(x ssa.Value) bool { return x == v }) {
+					own = true
+				}
+			}
+			if own {
+				continue
+			}
+			// must arrive over a success edge of a strong site
+			found := false
+			for si, sc := range pred.Succs {
+				if sc == p.Block() && strong[ir.Edge{From: pred, Succ: si}] {
+					found = true
+				}
+			}
+			if !found {
+				ok = false
+			}
+		}
+		if ok {
+			u.sites = append(u.sites, guardSite{ir.Branch{If: w.br.If, Idx: w.br.Idx, Pol: 0}, w.site})
+			promoted[w.site] = true
+		}
+	}
+	var un []ssa.Instruction
+	for _, x := range u.unchecked {
+		if !promoted[x] {
+			un = append(un, x)
+		}
+	}
+	u.unchecked = un
+	return u
 }
